@@ -161,6 +161,14 @@ class XMIResource(Resource):
         if not feat_container:
             return
 
+        if isinstance(eobject, EProxy) and not feat_container.containment:
+            # a reference into another resource is linked with the other
+            # references, once every object of this resource exists: linking
+            # an end of a bidirectional reference loads the other resource,
+            # whose references back into this one are then followed
+            self._later.append((parent_eobj, [(feat_container, eobject)]))
+            return
+
         # attach the new eobject to the parent one
         if feat_container.many:
             parent_eobj.__getattribute__(feat_container._name).append(eobject)
@@ -279,6 +287,12 @@ class XMIResource(Resource):
         for eobject, erefs in self._later:
             for ref, value in erefs:
                 name = ref._name
+                if isinstance(value, EProxy):  # an href, decoded already
+                    if ref.many:
+                        eobject.__getattribute__(name).append(value)
+                    else:
+                        eobject.__setattr__(name, value)
+                    continue
                 if name == 'eOpposite':
                     opposite.append((eobject, ref, value))
                     continue
